@@ -97,6 +97,9 @@ def gen_history(rng, maxlen):
         ops.append({'k': 'remove', 'spec': 'ax:1', 'gone': sorted(gone)})
         inst = [s for s in inst if s not in gone]
         ops.append({'k': 'obs'})
+    for op in ops[1:]:
+        if op['k'] in ('remove', 'add') and rng.random() < 0.25:
+            op['_reconnect'] = True          # the history continues in a new session on the same file
     return {'ops': ops, 'batch': rng.choice([None, 2, 5])}
 
 
